@@ -317,6 +317,22 @@ def r10_11(ctx):
     delegate(ctx, c16.r16_11, lambda c: True)
 
 
+def r10_12(ctx):
+    """R10.12 kconfgen adds a header to the minimal configuration and nothing else: write_min_config() of kconfgen hands the text
+    to Kconfig.write_min_config() and does not open the file again - a clean-up pass over the written body (dropping lines by a
+    name prefix) removes assignments the reload needs."""
+    repo = ctx.repo
+    f = repo.func("kconfgen.core:write_min_config")
+    ctx.analysed(f.qual)
+    calls = [n for n in ast.walk(f.node) if isinstance(n, ast.Call) and ast.unparse(n.func).endswith(".write_min_config")]
+    if not calls:
+        raise AnchorError("kconfgen write_min_config: the call of Kconfig.write_min_config was not found")
+    construct = "kconfgen.write_min_config/the body written by Kconfig.write_min_config is left alone"
+    again = [n for n in ast.walk(f.node) if isinstance(n, ast.Call) and ast.unparse(n.func) in ("open", "os.open", "io.open", "os.replace", "os.rename", "shutil.copyfile", "shutil.move")]
+    (ctx.bad(construct, f"`{ast.unparse(again[0])[:60]}`: the file is processed again after it was written - every line this pass drops or changes is an assignment the "
+             "minimal configuration no longer carries", f.loc(again[0])) if again else ctx.ok(construct, f.loc(calls[0])))
+
+
 def rules():
-    return [("R10.11", r10_11, 5), ("R10.10", r10_10, 1), ("R10.9", r10_9, 2), ("R10.8", r10_8, 1), ("R10.7", r10_7, 1), ("R10.6", r10_6, 3), ("R10.1", r10_1, 4), ("R10.1b", r10_1b, 3), ("R10.2", r10_2, 4), ("R10.2b", r10_2b, 2), ("R10.3", r10_3, 2),
+    return [("R10.12", r10_12, 1), ("R10.11", r10_11, 5), ("R10.10", r10_10, 1), ("R10.9", r10_9, 2), ("R10.8", r10_8, 1), ("R10.7", r10_7, 1), ("R10.6", r10_6, 3), ("R10.1", r10_1, 4), ("R10.1b", r10_1b, 3), ("R10.2", r10_2, 4), ("R10.2b", r10_2b, 2), ("R10.3", r10_3, 2),
             ("R10.4", r10_4, 1), ("R10.5", r10_5, 5)]
